@@ -112,6 +112,8 @@ type DecSpec struct {
 	Age      int    `json:"age,omitempty"`
 	Mark     bool   `json:"mark,omitempty"` // wrap the output in {tag=...} so that it can be found in the row
 	Cond     int    `json:"cond,omitempty"`     // 1..4: built through OnCondition / OnPredicate / Conditional / Predicative (selecting this decorator)
+	Slow     int    `json:"slow,omitempty"`     // > 0: the Slow-th Decor call takes SlowNS of (simulated) time: a slow but healthy decorator
+	SlowNS   int64  `json:"slow_ns,omitempty"`
 	PreInit  bool   `json:"pre_init,omitempty"` // the WC passed to the constructor is a copy of one shared, already initialised style value
 }
 
